@@ -278,8 +278,7 @@ func checkC15(p *core.Program, r *core.Report) {
 
 // c15VarIndexAllowed: computed indexes in contactql the generic idioms do not prove (confirmed by reading).
 var c15VarIndexAllowed = map[string]string{
-	"(*contactql.visitor).VisitStringLiteral/high#1": "value[1:len(value)-1] on the text of a STRING token, which starts and ends with a quote (len >= 2)",
-	"contactql.Stringify/high#1":                     "s[1:len(s)-1] under HasPrefix(s, \"(\") && HasSuffix(s, \")\"): two different one-character affixes need len(s) >= 2",
+	"contactql.Stringify/high#1": "s[1:len(s)-1] under HasPrefix(s, \"(\") && HasSuffix(s, \")\"): two different one-character affixes need len(s) >= 2",
 }
 
 // c15Relations checks the algebraic relations between the six comparison operators over every situation.
